@@ -774,6 +774,20 @@ def deliverFlt (t : Str) (kind : OutKind) (buflen : Nat) (pre : Str) : VRes :=
   | .strp => .ok t
   | .strpcat => .ok (pre ++ t)
 
+/-- val_flt_to_str as a whole (since 65b4a33). `iv = some n`: the value is `>= HAWK_TYPE_MIN(hawk_int_t)`, `< -HAWK_TYPE_MIN(hawk_int_t)` and
+`(hawk_flt_t)(hawk_int_t)v == v`, `n` being that integer: "a number whose value is an exact integer is converted as if by %d", through
+val_int_to_str. Otherwise `t` is the text hawk_rtx_format made of CONVFMT (OFMT with HAWK_RTX_VALTOSTR_PRINT), delivered by `deliverFlt`. -/
+def valFltToStr (iv : Option Int) (t : Str) (kind : OutKind) (buflen : Nat) (pre : Str) : VRes :=
+  match iv with
+  | some n => valIntToStr n kind buflen pre
+  | none => deliverFlt t kind buflen pre
+
+/-- the pieces of the text of a float: the digits of the integer, or what CONVFMT/OFMT give -/
+def valFltToPieces (tmpLen : Nat) (print : Bool) (convfmt ofmt : Str) (iv : Option Int) (a : Arg) : Except Err (List Piece) :=
+  match iv with
+  | some n => .ok [.text (intCells n (intRlen n))]
+  | none => valFltPieces tmpLen print convfmt ofmt a
+
 /-- str_to_str (strings, characters, nil) -/
 def strToStr (s : Str) (kind : OutKind) (buflen : Nat) (pre : Str) : VRes :=
   match kind with
